@@ -87,6 +87,8 @@ type FnCtx struct {
 	abstractions map[string]bool
 	arrayElems   map[string][]string
 	faCount      int
+	pfUsed       map[string]bool
+	mkArgs       map[string][]string
 }
 
 type deferred struct {
@@ -137,8 +139,15 @@ type frame struct {
 	rets    []retSite
 	closures map[ssa.Value]*ssa.MakeClosure
 	unescaped map[*ssa.Alloc]bool
+	loadedFrom map[ssa.Value]*loadedFrom
+	loopEntry  map[int]*State
 	idom    map[*ssa.BasicBlock]*ssa.BasicBlock
 	paramTV map[string]TV
+}
+
+type loadedFrom struct {
+	a    *addr
+	term string
 }
 
 type retSite struct {
@@ -370,7 +379,11 @@ func (fc *FnCtx) readPath(term string, T types.Type, path []pathEl) (string, typ
 				fc.errf("field of non-struct %s", T)
 				return term, T
 			}
-			term = fmt.Sprintf("(%s_f%d %s)", fc.P.SortOf(T), pe.field, term)
+			if known := fc.structArgs(term, T); known != nil {
+				term = known[pe.field]
+			} else {
+				term = fmt.Sprintf("(%s_f%d %s)", fc.P.SortOf(T), pe.field, term)
+			}
 			T = st.Field(pe.field).Type()
 		}
 	}
@@ -419,14 +432,48 @@ func (fc *FnCtx) writePath(term string, T types.Type, path []pathEl, v string) s
 	st := T.Underlying().(*types.Struct)
 	sname := fc.P.SortOf(T)
 	var args []string
+	known := fc.structArgs(term, T)
 	for i := 0; i < st.NumFields(); i++ {
 		cur := fmt.Sprintf("(%s_f%d %s)", sname, i, term)
+		if known != nil {
+			cur = known[i]
+		}
 		if i == pe.field {
 			cur = fc.writePath(cur, st.Field(i).Type(), path[1:], v)
 		}
 		args = append(args, cur)
 	}
-	return fmt.Sprintf("(mk_%s %s)", sname, strings.Join(args, " "))
+	return fc.mkStruct(sname, args)
+}
+
+// mkStruct builds a constructor application and remembers its arguments, so that later field reads and updates do not
+// nest accessor terms (which would grow exponentially with the number of field stores).
+func (fc *FnCtx) mkStruct(sname string, args []string) string {
+	t := fmt.Sprintf("(mk_%s %s)", sname, strings.Join(args, " "))
+	if len(args) == 0 {
+		t = "mk_" + sname
+	}
+	if fc.mkArgs == nil {
+		fc.mkArgs = map[string][]string{}
+	}
+	fc.mkArgs[t] = args
+	return t
+}
+
+func (fc *FnCtx) structArgs(term string, T types.Type) []string {
+	if a, ok := fc.mkArgs[term]; ok {
+		return a
+	}
+	// zero values are syntactic constructor applications too
+	if st, ok := T.Underlying().(*types.Struct); ok && term == fc.P.ZeroOf(T) && st.NumFields() > 0 {
+		var args []string
+		for i := 0; i < st.NumFields(); i++ {
+			args = append(args, fc.P.ZeroOf(st.Field(i).Type()))
+		}
+		fc.mkStruct(fc.P.SortOf(T), args)
+		return args
+	}
+	return nil
 }
 
 // loadHeapStruct builds the struct value at ref from field components.
@@ -506,7 +553,19 @@ func (fc *FnCtx) globalComp(g *ssa.Global) string {
 func (fc *FnCtx) store(st *State, a *addr, v string) {
 	switch a.kind {
 	case 1:
-		st.comp[a.key] = fc.writePath(fc.lookup(st, a.key), a.T, a.path, v)
+		nt := fc.writePath(fc.lookup(st, a.key), a.T, a.path, v)
+		if len(nt) > 1500 {
+			c := fc.freshConst("loc_"+a.key, fc.compSort[a.key])
+			fc.fact("", "(= %s %s)", c, nt)
+			if args, ok := fc.mkArgs[nt]; ok {
+				fc.mkArgs[c] = args
+			}
+			if el, ok := fc.arrayElems[nt]; ok {
+				fc.arrayElems[c] = el
+			}
+			nt = c
+		}
+		st.comp[a.key] = nt
 	case 2:
 		if len(a.path) > 0 && !a.path[0].isIdx {
 			if s, ok := a.T.Underlying().(*types.Struct); ok {
@@ -532,7 +591,7 @@ func (fc *FnCtx) store(st *State, a *addr, v string) {
 func newFrame(fc *FnCtx, fn *ssa.Function, prefix string) *frame {
 	fr := &frame{fc: fc, fn: fn, prefix: prefix, vals: map[ssa.Value]string{}, addrs: map[ssa.Value]*addr{}, reach: map[*ssa.BasicBlock]string{},
 		edge: map[[2]int]string{}, back: map[[2]int]bool{}, ordinal: map[*ssa.BasicBlock]int{}, loopBlocks: map[*ssa.BasicBlock]map[*ssa.BasicBlock]bool{},
-		exit: map[*ssa.BasicBlock]*State{}, entrySt: map[*ssa.BasicBlock]*State{}, closures: map[ssa.Value]*ssa.MakeClosure{}, paramTV: map[string]TV{}, unescaped: map[*ssa.Alloc]bool{}}
+		exit: map[*ssa.BasicBlock]*State{}, entrySt: map[*ssa.BasicBlock]*State{}, closures: map[ssa.Value]*ssa.MakeClosure{}, paramTV: map[string]TV{}, unescaped: map[*ssa.Alloc]bool{}, loadedFrom: map[ssa.Value]*loadedFrom{}, loopEntry: map[int]*State{}}
 	fr.analyzeLoops()
 	return fr
 }
